@@ -759,3 +759,71 @@ Print Assumptions compose_c09_transport_rt_jws_keyset.
 Print Assumptions compose_c09_rt_jws.
 Print Assumptions compose_c09_rt_jws_gen.
 Print Assumptions compose_c09_transport_rt_unrestricted_refuted.
+
+(* ================================================================== *)
+(* Part 4 — end to end: jwt.decode over the JWS pipeline                 *)
+(* ================================================================== *)
+From Proofs Require ComposeJwsSound.
+
+Section ComposeJwtSound.
+  Variable mac : string -> N -> bytes -> res bytes.
+  Variable pk_verify : jws_alg_row -> N -> bytes -> bytes -> res bool.
+  Variable ec_verify : jws_alg_row -> N -> bytes -> Z -> Z -> res bool.
+  Variable json_loads : bytes -> res pv.
+  Notation tdec := (jws_tdec mac pk_verify ec_verify).
+  Notation accepted := (ComposeJwsSound.jws_accepted mac pk_verify ec_verify).
+
+  (* [jws_accepted src algs tok h payload]: tok = hseg.pseg.sseg, h is the JSON object of the
+     protected segment (wire header), payload = b64d pseg, h satisfies C15's spec, its alg is a
+     registered name of the effective allow-list and not "none" (C05), the signature verified
+     over the received hseg.pseg with the key guess_key resolves, and that key is suitable in
+     the sense of C06 *)
+  Theorem compose_jwt_decode_jws_sound : forall src algs tok h v,
+    C09Jwt.decode json_loads (tdec src algs) tok = Ok (h, v) ->
+    is_dict v = true /\ ComposeJwsSound.jws_wire_header tok = Some h /\
+    exists payload, accepted src algs tok h payload /\ json_loads payload = Ok v.
+  Proof. exact (ComposeJwsSound.jwt_decode_jws_sound mac pk_verify ec_verify json_loads). Qed.
+
+  (* C09's wire-header contract (c09_decode_header_is_wire_header), discharged for the JWS
+     transport: no header member (no kid) can appear that the token does not carry *)
+  Theorem compose_c09_wire_header_jws : forall src algs tok h p,
+    tdec src algs tok = Ok (h, p) -> ComposeJwsSound.jws_wire_header tok = Some h.
+  Proof. exact (ComposeJwsSound.jws_tdec_wire_header mac pk_verify ec_verify). Qed.
+
+  (* C09's forged-token contract (c09_forged_token_never_decodes): what the pipeline refuses,
+     jwt.decode refuses with the pipeline's error *)
+  Theorem compose_jwt_decode_jws_forged : forall src algs tok e,
+    deserialize_compact JwsJson.g_loads mac pk_verify ec_verify tok src algs = Err e ->
+    C09Jwt.decode json_loads (tdec src algs) tok = Err e.
+  Proof. exact (ComposeJwsSound.jwt_decode_jws_forged mac pk_verify ec_verify json_loads). Qed.
+
+  (* c15_validate_compact_checks_header on the pipeline's validate_compact: a verdict (True or
+     False) is returned only for a header satisfying the spec *)
+  Theorem compose_c15_validate_compact : forall o src b algs verdict,
+    validate_compact mac pk_verify ec_verify o src (rgof b algs) = Ok verdict ->
+    exists h, co_protected o = PDict h /\ hdr_spec b h = true.
+  Proof. exact (ComposeJwsSound.validate_compact_checks_header mac pk_verify ec_verify). Qed.
+End ComposeJwtSound.
+
+(* non-vacuity: the token of compose_ex_c09_rt decodes, so the hypothesis of
+   compose_jwt_decode_jws_sound is met; a token with a changed signature is refused *)
+Definition compose_ex_tok : bytes :=
+  Eval vm_compute in
+  match C09Jwt.eo_result (C09Jwt.encode x_dumps (jws_tenc x_mac x_pks x_ecs x_choose (KOne (x_key None)) None)
+                            [(s_alg, PStr (asc "HS256"))] [(asc "sub", C09Jwt.CV (PStr (asc "a")))]) with
+  | Ok t => t
+  | Err _ => []
+  end.
+
+Example compose_ex_jwt_decode_sound :
+  C09Jwt.decode JwsJson.g_loads (jws_tdec x_mac x_pkv x_ecv (KOne (x_key None)) None) compose_ex_tok
+    = Ok ([(asc "typ", PStr (asc "JWT")); (s_alg, PStr (asc "HS256"))], PDict [(asc "sub", PStr (asc "a"))]) /\
+  ComposeJwsSound.jws_wire_header compose_ex_tok = Some [(asc "typ", PStr (asc "JWT")); (s_alg, PStr (asc "HS256"))] /\
+  C09Jwt.decode JwsJson.g_loads (jws_tdec x_mac x_pkv x_ecv (KOne (x_key None)) None) (compose_ex_tok ++ [65])
+    = Err (EJose BadSignatureError).
+Proof. split; [vm_compute; reflexivity|]. split; vm_compute; reflexivity. Qed.
+
+Print Assumptions compose_jwt_decode_jws_sound.
+Print Assumptions compose_c09_wire_header_jws.
+Print Assumptions compose_jwt_decode_jws_forged.
+Print Assumptions compose_c15_validate_compact.
